@@ -14,6 +14,7 @@ from jax2onnx._compat.jax import (
     JaxprEqn,
     Primitive,
     ShapedArray,
+    batching,
 )
 from numpy.typing import ArrayLike
 
@@ -21,7 +22,6 @@ from jax2onnx.converter.typing_support import LoweringContextProtocol
 from jax2onnx.plugins.jax._autodiff_utils import register_jvp_via_jax_jvp
 from jax2onnx.plugins._patching import AssignSpec, MonkeyPatchSpec
 from jax2onnx.plugins._post_check_onnx_graph import expect_graph as EG
-from jax2onnx.plugins.jax.nn._builder_utils import register_unary_elementwise_batch_rule
 from jax2onnx.plugins.plugin_system import PrimitiveLeafPlugin, register_primitive
 
 
@@ -237,7 +237,27 @@ def _standardize_impl(
     return orig(x, axis=axis, mean=None, variance=None, epsilon=epsilon, where=None)
 
 
-register_unary_elementwise_batch_rule(StandardizePlugin._PRIM)
+def _standardize_batch_rule(
+    batched_args: tuple[jax.Array, ...],
+    batch_dims: tuple[int | None, ...],
+    *,
+    axis: tuple[int, ...] | None = None,
+    epsilon: float = 0.0,
+) -> tuple[jax.Array, int | None]:
+    (x,) = batched_args
+    (bdim,) = batch_dims
+    if bdim is None:
+        return StandardizePlugin._PRIM.bind(x, axis=axis, epsilon=epsilon), None
+    # `axis` addresses one example: put the batch axis in front and shift.
+    if bdim != 0:
+        x = jnp.moveaxis(x, bdim, 0)
+    example_rank = x.ndim - 1
+    example_axes = tuple(range(example_rank)) if axis is None else axis
+    shifted = tuple((int(a) % example_rank if example_rank else 0) + 1 for a in example_axes)
+    return StandardizePlugin._PRIM.bind(x, axis=shifted, epsilon=epsilon), 0
+
+
+batching.primitive_batchers[StandardizePlugin._PRIM] = _standardize_batch_rule
 
 
 register_jvp_via_jax_jvp(StandardizePlugin._PRIM, _standardize_impl)
